@@ -144,6 +144,11 @@ const (
 
 func (k opKind) String() string { return [...]string{"PUB", "SUB", "UNSUB", "CLOSE"}[k] }
 
+// IsPub, IsSub, IsUnsub classify an operation for observers.
+func (o *Op) IsPub() bool   { return o.Kind == opPub }
+func (o *Op) IsSub() bool   { return o.Kind == opSub }
+func (o *Op) IsUnsub() bool { return o.Kind == opUnsub }
+
 // Op is one protocol operation on a connection's uplink.
 type Op struct {
 	Kind    opKind
@@ -498,8 +503,15 @@ func (c *Conn) enqueue(o *Op) error {
 		return nil
 	}
 	c.uplink = append(c.uplink, o)
-	if o.Kind == opPub && c.w.Observer != nil {
-		c.w.Observer(BusEvent{Kind: "publish", Op: o, Conn: c})
+	if c.w.Observer != nil {
+		switch o.Kind {
+		case opPub:
+			c.w.Observer(BusEvent{Kind: "publish", Op: o, Conn: c})
+		case opSub:
+			c.w.Observer(BusEvent{Kind: "subscribe", Op: o, Conn: c, Sub: o.Sub})
+		case opUnsub:
+			c.w.Observer(BusEvent{Kind: "unsubscribe", Op: o, Conn: c, Sub: o.Sub})
+		}
 	}
 	c.w.wake()
 	return nil
